@@ -15,11 +15,17 @@
    either of its two selects without a partner, reaches the end of OnFrame in two steps of its own,
    and `done` never reopens.
 
+   Across processes (Runtime/AgentProc.v, compared with a real Agent driven by 2-3 processes that open, request,
+   answer and exit with requests unanswered): C19_processes_independent - whether the agent lists a process and the
+   frames it holds for it depend on that process's own accepts, firings and exit only, whatever other processes do in
+   between.
+
    Transparency ("no response changes") is differential and measured, not proved: packet hooks are
    arbitrary Go code run inside the endpoints' critical sections; in the model they are observers by
    construction.  The harness runs the workflows and schedules of C02 with and without the agent. *)
 From Coq Require Import List Arith Bool Lia.
 From Uf Require Import Runtime.Agent Runtime.AgentProofs Runtime.Breakpoint Runtime.BreakpointProofs.
+From Uf Require Runtime.AgentProc.
 Import ListNotations.
 
 Theorem C19_frames_are_the_zip : forall evs x,
@@ -73,3 +79,8 @@ Example C19_ex :
                   [BLock 1; BLock 1; BSendIn 0 1; BLock 3; BRecvOut 0 3; BLock 4; BLock 4; BSendIn 2 4; BLock 5; BLock 5; BSeeDone 2] in
   pcs st = [FEnd; NEnd true; FEnd; DEnd true; NEnd true; CEnd] /\ done st = true /\ cur st = None.
 Proof. vm_compute. repeat split; reflexivity. Qed.
+
+Theorem C19_processes_independent : forall g evs p,
+  AgentProc.view p (AgentProc.g_run g evs) = AgentProc.view p (AgentProc.g_run g (filter (AgentProc.own p) evs)).
+Proof. exact AgentProc.agent_processes_independent. Qed.
+Print Assumptions C19_processes_independent.
